@@ -399,7 +399,7 @@ structure Good (i : Info) : Prop where
 
 theorem checkDataframe_strict (i : Info) (f : Frame) : (checkDataframe i f).1.strict = i.strict := by
   unfold checkDataframe
-  by_cases h : i.last = some f
+  by_cases h : i.last = some f ∧ i.lastStrict = i.strict
   · simp [h]
   · simp only [h, if_false]
     cases hu : updateColumns i.strict i.reg f with
@@ -407,7 +407,7 @@ theorem checkDataframe_strict (i : Info) (f : Frame) : (checkDataframe i f).1.st
 
 theorem checkDataframe_good (i : Info) (f : Frame) (h : Good i) : Good (checkDataframe i f).1 := by
   unfold checkDataframe
-  by_cases hl : i.last = some f
+  by_cases hl : i.last = some f ∧ i.lastStrict = i.strict
   · simpa [hl] using h
   · simp only [hl, if_false]
     have hnd := updateColumns_nodup i.strict i.reg f h.nodup
@@ -430,8 +430,8 @@ theorem checkDataframe_good (i : Info) (f : Frame) (h : Good i) : Good (checkDat
 theorem checkDataframe_ok_last (i i' : Info) (f : Frame) (h : checkDataframe i f = (i', none)) :
     i'.last = some f := by
   unfold checkDataframe at h
-  by_cases hl : i.last = some f
-  · simp [hl] at h; rw [← h]; exact hl
+  by_cases hl : i.last = some f ∧ i.lastStrict = i.strict
+  · simp [hl] at h; rw [← h]; exact hl.1
   · simp only [hl, if_false] at h
     cases hu : updateColumns i.strict i.reg f with
     | mk r e =>
@@ -441,6 +441,55 @@ theorem checkDataframe_ok_last (i i' : Info) (f : Frame) (h : checkDataframe i f
       | some e => simp at h
 
 /-! ### every operation preserves `Good` (frame effects universally quantified) -/
+
+/-- entries of columns that are in the frame survive `_update_columns`, whether it succeeds or raises -/
+theorem updateColumns_keeps_any (strict : Bool) (r : Reg) (f : Frame) (n : Str) (m : ColMeta)
+    (hn : n ∈ f.names) (hg : get r n = some m) : get (updateColumns strict r f).1 n = some m := by
+  unfold updateColumns
+  by_cases hd : hasDup f.names = true
+  · simpa [hd] using hg
+  · have hd' : hasDup f.names = false := by simpa using hd
+    simp only [hd', Bool.false_eq_true, if_false]
+    have h1 : get (restrict r f.names) n = some m := by rw [get_restrict]; simp [hn, hg]
+    by_cases he : f.empty = true
+    · simp only [he, if_true]
+      rw [get_reorder]; simp [hn, h1]
+    · simp only [he]
+      have h2 := updLoop_preserve strict f.cols _ n m h1
+      cases hl : updLoop strict f.cols (restrict r f.names) with
+      | mk r2 e =>
+        rw [hl] at h2
+        cases e with
+        | none =>
+          have : get (reorder r2 f.names) n = some m := by rw [get_reorder]; simp [hn, h2]
+          simpa using this
+        | some e => simpa using h2
+
+/-- … and therefore survive any consultation, successful or not -/
+theorem checkDataframe_keeps (i : Info) (f : Frame) (n : Str) (m : ColMeta)
+    (hn : n ∈ f.names) (hg : get i.reg n = some m) : get (checkDataframe i f).1.reg n = some m := by
+  unfold checkDataframe
+  by_cases hl : i.last = some f ∧ i.lastStrict = i.strict
+  · simpa [hl] using hg
+  · simp only [hl, if_false]
+    have := updateColumns_keeps_any i.strict i.reg f n m hn hg
+    cases hu : updateColumns i.strict i.reg f with
+    | mk r e =>
+      rw [hu] at this
+      cases e <;> simpa using this
+
+theorem checkDataframe_ok_lastStrict (i i' : Info) (f : Frame) (h : checkDataframe i f = (i', none)) :
+    i'.lastStrict = i'.strict := by
+  unfold checkDataframe at h
+  by_cases hl : i.last = some f ∧ i.lastStrict = i.strict
+  · simp [hl] at h; rw [← h]; exact hl.2
+  · simp only [hl, if_false] at h
+    cases hu : updateColumns i.strict i.reg f with
+    | mk r e =>
+      rw [hu] at h
+      cases e with
+      | none => simp at h; rw [← h]
+      | some e => simp at h
 
 theorem assignUnits_keys (r : Reg) (m : List (Str × Str)) : keys (assignUnits r m).1 = keys r := by
   induction m generalizing r with
@@ -624,6 +673,7 @@ theorem step_good (t : Tbl) (op : Op) (hg : Good t.info) : Good (step t op).1.in
   | setUnits m => simpa [step] using setUnits_good t.info t.frame m hg
   | setAllUnits us => simpa [step, setAllUnits] using setUnits_good t.info t.frame _ hg
   | setFmt n fm => simpa [step] using setColFmt_good t.info t.frame n fm hg
+  | setStrict b => exact ⟨by simpa [step] using hg.nodup, by intro f0 hf0 he; simpa [step] using hg.keysOk f0 (by simpa [step] using hf0) he⟩
   | setColUnit n u =>
     by_cases hc : n ∈ t.frame.names
     · by_cases hd : dupLabel t.frame n = true
